@@ -6,32 +6,89 @@ import Vita.C02.Lemmas
 import Vita.C02.CseLemmas
 import Vita.C02.ReachLemmas
 import Vita.C02.GenLemmas
+import Vita.C02.RouletteLemmas
+import Vita.C02.WalkLemmas
 namespace Vita.C02
 open Vita.IntE GenSem
 
-/-! ## symbol_set::roulette -/
+/-! ## symbol_set::roulette
 
-/-- For any slot below the sum of the weights the wedge loop stops inside the container and
-    returns one of its symbols. -/
+  The statements are about the GENERATED terms: `Gen.wedge` (the wedge loop of
+  `sum_container::roulette`, meaning: `GenSem.WedgeLoop.run / pick`), `Gen.rouletteSel` and
+  `Gen.rouletteTerminal` (which view of the category `symbol_set::roulette(c)` /
+  `roulette_terminal(c)` ask), all regenerated from the clang AST of symbol_set.cc on every run. -/
+
+/-- The extracted wedge loop denotes the model's `wedgeIdx` / `rouletteOf` on every container and
+    for every slot (also when it leaves the container: both sides are `none` then); the slot is
+    drawn below `sum()`. -/
+theorem gen_wedge_denotes (l : List Sym) (slot : Nat) :
+    Gen.wedge.run (l.map (·.weight)) slot = wedgeIdx l 0 slot ∧
+    Gen.wedge.pick l slot = rouletteOf l slot ∧
+    Gen.wedge.slotSup = "sum()" :=
+  ⟨wedge_run_eq l slot, wedge_pick_eq l slot, rfl⟩
+
+/-- For any slot below the sum of the weights the extracted wedge loop stops at an index inside
+    the container and returns one of its symbols (the one the model's `rouletteD` returns). -/
 theorem roulette_in_container (l : List Sym) (slot : Nat) (h : slot < wsum l) :
-    (∃ i, wedgeIdx l 0 slot = some i ∧ i < l.length) ∧ rouletteD l slot ∈ l :=
-  ⟨wedgeIdx_some l 0 slot (by omega) (by omega), rouletteD_mem l slot h⟩
+    (∃ i, Gen.wedge.run (l.map (·.weight)) slot = some i ∧ i < l.length) ∧
+    (∃ s, Gen.wedge.pick l slot = some s ∧ s ∈ l ∧ s = rouletteD l slot) := by
+  refine ⟨?_, ?_⟩
+  · rw [wedge_run_eq]; exact wedgeIdx_some l 0 slot (by omega) (by omega)
+  · rw [wedge_pick_eq, rouletteOf_eq_D l slot h]
+    exact ⟨_, rfl, rouletteD_mem l slot h, rfl⟩
 
 /-- The hypothesis `slot < sum` cannot be dropped: when every weight is zero (or the container is
-    empty) the wedge loop leaves the container whatever the slot (defect `6b89709`: such symbol
+    empty) the extracted loop leaves the container whatever the slot (defect `6b89709`: such symbol
     sets were accepted by `symbol_set::is_valid`). -/
 theorem wedge_zero_sum (l : List Sym) (slot : Nat) (h : ∀ s ∈ l, s.weight = 0) :
-    wedgeIdx l 0 slot = none ∧ rouletteOf l slot = none := by
+    Gen.wedge.run (l.map (·.weight)) slot = none ∧ Gen.wedge.pick l slot = none := by
   have := wedgeIdx_none_of_zero l 0 slot (Nat.zero_le _) h
-  exact ⟨this, by simp [rouletteOf, this]⟩
+  exact ⟨by rw [wedge_run_eq]; exact this, by rw [wedge_pick_eq]; simp [rouletteOf, this]⟩
 
-/-- `roulette(c)` / `roulette_terminal(c)` return a symbol of the set, of category `c`
-    (a terminal for `roulette_terminal`). -/
+/-- `symbol_set::roulette(c)` as extracted – `if (boolean() && views_[c].functions.size())` ask the
+    functions of the category, else its terminals – is the model's choice between `rouletteOf` of the
+    two views; `roulette_terminal(c)` asks the terminals; `views_[c].functions` / `.terminals` hold the
+    symbols of category `c` that are not / are terminals (`symbol_set::insert`). -/
+theorem gen_roulette_denotes (ss : SymSet) (c : Nat) (d : GDraw) :
+    Gen.rouletteSel.run Gen.wedge ss c d =
+      (if ss.useF c d then rouletteOf (ss.functions c) d.slotF
+       else rouletteOf (ss.terminals c) d.slotT) ∧
+    Gen.wedge.pick (view ss c Gen.rouletteTerminal) d.slotT = rouletteOf (ss.terminals c) d.slotT ∧
+    (∀ s, s ∈ view ss c "functions" ↔ s ∈ ss.syms ∧ s.cat = c ∧ s.terminal = false) ∧
+    (∀ s, s ∈ view ss c "terminals" ↔ s ∈ ss.syms ∧ s.cat = c ∧ s.terminal = true) ∧
+    Gen.viewInsert = [("all", "always"), ("terminals", "terminal()"), ("functions", "!terminal()")] := by
+  refine ⟨?_, ?_, ?_, ?_, rfl⟩
+  · simp only [Sel.run, Sel.useThen, Gen.rouletteSel, view, SymSet.useF, wedge_pick_eq]
+    simp
+  · simp only [Gen.rouletteTerminal, view, wedge_pick_eq]
+    simp
+  · intro s; simp [view, SymSet.functions]
+  · intro s; simp [view, SymSet.terminals]
+
+/-- `roulette(c)` / `roulette_terminal(c)` – the extracted terms – return, for admissible draws, a
+    symbol of the set, of category `c` (a terminal for `roulette_terminal`): the one the model's
+    `SymSet.roulette` / `rouletteT` returns. -/
 theorem roulette_in_cat (ss : SymSet) (c lo sup : Nat) (d : GDraw) :
-    (GDrawOK ss c lo sup d → ss.roulette c d ∈ ss.syms ∧ (ss.roulette c d).cat = c) ∧
-    (TDrawOK ss c d → ss.rouletteT c d ∈ ss.syms ∧ (ss.rouletteT c d).cat = c ∧
-        (ss.rouletteT c d).terminal = true) :=
-  ⟨roulette_mem, rouletteT_mem⟩
+    (GDrawOK ss c lo sup d → ∃ s, Gen.rouletteSel.run Gen.wedge ss c d = some s ∧
+        s = ss.roulette c d ∧ s ∈ ss.syms ∧ s.cat = c) ∧
+    (TDrawOK ss c d → ∃ s, Gen.wedge.pick (view ss c Gen.rouletteTerminal) d.slotT = some s ∧
+        s = ss.rouletteT c d ∧ s ∈ ss.syms ∧ s.cat = c ∧ s.terminal = true) := by
+  obtain ⟨h1, h2, _⟩ := gen_roulette_denotes ss c d
+  refine ⟨?_, ?_⟩
+  · intro hd
+    have hm := roulette_mem hd
+    refine ⟨ss.roulette c d, ?_, rfl, hm.1, hm.2⟩
+    rw [h1]
+    unfold SymSet.roulette
+    by_cases hu : ss.useF c d = true
+    · simp only [hu, if_true]; exact rouletteOf_eq_D _ _ (hd.1 hu)
+    · have hu' : ss.useF c d = false := by simpa using hu
+      simp only [hu', Bool.false_eq_true, if_false]; exact rouletteOf_eq_D _ _ (hd.2.1 hu')
+  · intro hd
+    have hm := rouletteT_mem hd
+    refine ⟨ss.rouletteT c d, ?_, rfl, hm.1, hm.2.1, hm.2.2⟩
+    rw [h2]
+    exact rouletteOf_eq_D _ _ hd
 
 /-! ## what well-formedness gives -/
 
@@ -65,6 +122,45 @@ theorem wf_walk_inside {ss : SymSet} {x : Ind} (h : WF ss x) :
 theorem reach_closure {ss : SymSet} {x : Ind} (h : WF ss x) {l0 : Locus} (h0 : Inside x l0)
     (l : Locus) : l ∈ reach x l0 ↔ Reaches x l0 l :=
   reach_iff_reaches h h0 l
+
+/-- `operator<(const locus &, const locus &)` as extracted is the lexicographic order. -/
+theorem gen_locus_less (a b : Locus) :
+    lessBy Gen.locusLess a b = true ↔ (a.idx < b.idx ∨ (a.idx = b.idx ∧ a.cat < b.cat)) := by
+  simp only [lessBy, Gen.locusLess, evalZ, lessEnv, cmpZ, b2i]
+  by_cases h1 : a.idx < b.idx
+  · have : (a.idx : Int) < b.idx := by omega
+    simp [h1, this]
+  · have h1' : ¬ (a.idx : Int) < b.idx := by omega
+    by_cases h2 : a.idx = b.idx
+    · have h2' : (a.idx : Int) = b.idx := by omega
+      by_cases h3 : a.cat < b.cat
+      · have : (a.cat : Int) < b.cat := by omega
+        simp [h2, h3, this]
+      · have : ¬ (a.cat : Int) < b.cat := by omega
+        simp [h2, h3, this]
+    · have h2' : ¬ (a.idx : Int) = b.idx := by omega
+      simp [h1, h1', h2, h2']
+
+/-- `random_locus(prg)` as extracted – a `std::set<locus>` that starts as `{prg.best()}`, a cursor
+    from `begin()`, each iteration inserting `prg[*iter].arguments()`, `while (++iter != end())`, the
+    result `random::element` of the set – scans, on a well-formed individual, a set that holds
+    exactly the active loci: the model's `exons` (the row scan `reach`), i.e. the loci reached from
+    the entry point by following arguments; all of them are inside the genome. -/
+theorem gen_random_locus_denotes {ss : SymSet} {x : Ind} (h : WF ss x) :
+    Gen.randomLocus.known = true ∧
+    (∀ l, l ∈ Gen.randomLocus.run Gen.locusLess x ↔ l ∈ exons x) ∧
+    (∀ l, l ∈ Gen.randomLocus.run Gen.locusLess x ↔ Reaches x x.best l) ∧
+    (∀ l ∈ Gen.randomLocus.run Gen.locusLess x, Inside x l) := by
+  have hk : Gen.randomLocus.known = true := by decide
+  have hr : ∀ l, l ∈ Gen.randomLocus.run Gen.locusLess x ↔ Reaches x x.best l := by
+    intro l
+    simp only [Walk.run, hk, if_true]
+    exact walk_iff_reaches (less := lessBy Gen.locusLess) gen_locus_less h l
+  have he : ∀ l, l ∈ Gen.randomLocus.run Gen.locusLess x ↔ l ∈ exons x := by
+    intro l
+    rw [hr l]
+    exact (reach_iff_reaches h h.best l).symm
+  exact ⟨hk, he, hr, fun l hl => reach_inside h h.best l ((he l).1 hl)⟩
 
 theorem wfb_iff (ss : SymSet) (x : Ind) : WFb ss x = true ↔ WF ss x := by
   unfold WFb
@@ -1210,6 +1306,24 @@ example : onePointCut 2 12345 = 1 ∧ ¬ (∃ cut, 1 ≤ cut ∧ cut < 2 - 1) :=
     stays inside the container; the sum itself would run past the end -/
 example : wedgeIdx (ss.terminals 0) 0 99 = some 0 ∧ wedgeIdx (ss.terminals 0) 0 100 = some 1 ∧
     wedgeIdx (ss.terminals 0) 0 299 = some 1 ∧ wedgeIdx (ss.terminals 0) 0 300 = none := by decide
+
+/-- the same with the EXTRACTED loop -/
+example : Gen.wedge.run ((ss.terminals 0).map (·.weight)) 99 = some 0 ∧
+    Gen.wedge.run ((ss.terminals 0).map (·.weight)) 100 = some 1 ∧
+    Gen.wedge.run ((ss.terminals 0).map (·.weight)) 300 = none ∧
+    Gen.wedge.pick (ss.terminals 0) 100 = some erc := by decide
+
+/-- `roulette_in_cat`'s hypotheses are satisfiable: `d0` is admissible at category 0 -/
+example : TDrawOK ss 0 (d0 4 0 0) ∧ GDrawOK ss 0 1 4 (d0 4 0 0) := by
+  have h := d0_ok 4 1 (by decide) 0 (by decide) 0 (by decide)
+  have h2 := d0_ok 4 4 (by decide) 0 (by decide) 0 (by decide)
+  simp only [DrawOK] at h h2
+  exact ⟨by simpa using h2, by simpa using h⟩
+
+/-- the extracted walk of `random_locus` on `a`: the active loci, each once, in `operator<` order -/
+example : Gen.randomLocus.run Gen.locusLess a =
+    [⟨0, 0⟩, ⟨1, 0⟩, ⟨2, 0⟩, ⟨2, 1⟩, ⟨3, 0⟩, ⟨3, 0⟩, ⟨3, 0⟩, ⟨3, 0⟩, ⟨3, 1⟩, ⟨3, 1⟩] := by decide
+example := gen_random_locus_denotes (ss := ss) (x := a) ((wfb_iff _ _).1 (by decide))
 
 /-! the `gen_*` theorems at concrete values (their hypotheses are satisfiable) -/
 example := gen_ctor_denotes ss e41 2 (d0 4) a (fun _ _ => default) (by decide) 1 0 (by decide) (by decide)
